@@ -474,7 +474,7 @@ func runC20s(rc *RunCtx) {
 	rc.PostData = d
 	keys := genKeys(G, 1+G.Draw(3), "")
 	m := &RecMetrics{Inner: prom}
-	tsrv := startTCPServer(rc, w, tcpServerOpts{Keys: keys, Timeout: time.Second, Metrics: m})
+	tsrv := startTCPServer(rc, w, tcpServerOpts{Keys: keys, Timeout: time.Second, Metrics: m, Debug: rc.F.Draw(3) == 1})
 	usrv := startUDPServer(rc, w, udpServerOpts{Keys: keys, Timeout: time.Minute, Metrics: m})
 	tgtIP := net.IPv4(93, 184, 216, 34).To4()
 	startTarget(w, tgtIP, 7000, func(tc *targetConn) {
